@@ -4183,6 +4183,7 @@ def apply_delta(
         raise ApplyDeltaError(
             f"Unexpected source buffer size: {src_size} vs {len(src_buf)}"
         )
+    out_size = 0
     while index < delta_length:
         cmd = ord(delta[index : index + 1])
         index += 1
@@ -4206,11 +4207,19 @@ def apply_delta(
                 or cp_size > dest_size
             ):
                 break
+            # Stop as soon as the output would outgrow the declared size: a
+            # hostile delta can ask for 64 KiB per byte it is long.
+            if cp_size > dest_size - out_size:
+                raise ApplyDeltaError("dest size incorrect")
             out.append(src_buf[cp_off : cp_off + cp_size])
+            out_size += cp_size
         elif cmd != 0:
             if index + cmd > delta_length:
                 raise ApplyDeltaError("delta truncated in insert op")
+            if cmd > dest_size - out_size:
+                raise ApplyDeltaError("dest size incorrect")
             out.append(delta[index : index + cmd])
+            out_size += cmd
             index += cmd
         else:
             raise ApplyDeltaError("Invalid opcode 0")
